@@ -309,14 +309,24 @@ fn scenario(seed: u64, rep: &Report, dedicated: bool) -> Result<(), String> {
                         b.extend(proto::parse(&name, &t.sql, &t.types));
                         b.extend(proto::bind(&portal, &name, &[], &params, &[]));
                         b.extend(proto::execute(&portal, 0));
+                        // one time in five the statement is closed again at the end of the very batch
+                        // that prepared and ran it (prepare, use, drop: what drivers do for one-shot statements)
+                        let close_at_end = rng.chance(1, 5);
+                        if close_at_end {
+                            b.extend(proto::close(b'S', &name));
+                        }
                         b.extend(proto::sync());
                         c.send(&b).map_err(|e| e.to_string())?;
                         let r = c.read_until_ready(10_000).map_err(|(m, e)| format!("{} parse+exec {}: {:?} {}", cid, name, e, summarize(&m)))?;
                         let ids = crate::wire::row_idents(&r);
                         let want_q = crate::sql::directive(&t.sql).get("q").cloned().unwrap_or_default();
                         let ok = crate::wire::first_error(&r).is_none() && ids.len() == 1 && ids[0].2 == want_q;
-                        recs.push(ExecRec { op: "parse_bind_execute".into(), client: cid.clone(), portal, expect_sql: t.sql.clone(), expect_types: t.types.clone(), name: name.clone(), reply: summarize(&r), ok });
-                        model.insert(name.clone(), t);
+                        recs.push(ExecRec { op: if close_at_end { "parse_bind_execute_close_in_one_batch".into() } else { "parse_bind_execute".into() }, client: cid.clone(), portal, expect_sql: t.sql.clone(), expect_types: t.types.clone(), name: name.clone(), reply: summarize(&r), ok });
+                        if close_at_end {
+                            model.remove(&name);
+                        } else {
+                            model.insert(name.clone(), t);
+                        }
                     }
                 }
                 if rng.chance(1, 4) {
